@@ -18,7 +18,7 @@ RULE = (
     "zero-below-subdiagonal column masks, Q8 strictly-lower support masks) ; non-trivial = A non-zero; distinct = sha1(input)"
 )
 BOUNDS = {
-    "quick": "n<=5; structure classes incl. nearly-Hermitian / nearly-triangular / nearly-Hessenberg perturbations (2^-20..2^-30, float32 triangle); all 2^(n-2) column masks x 2 entry classes; all 2^(n(n-1)/2) lower support masks for n<=4; scalings 2^+-27; exhaustive small-integer cells: all 2x2 over {0,1,-1,i,j,k}, 3x3 over {-1,0,1} (every 4th), 2x3/3x2 over {0,1,i,j} (every 4th); exhaustive Hermitian small-integer cells: diagonal over {-1,0,1}, off-diagonal over {0,1,-1,i,j,k}: all 2x2, every 3rd 3x3",
+    "quick": "n<=5; structure classes incl. nearly-Hermitian / nearly-triangular / nearly-Hessenberg perturbations (2^-20..2^-30, float32 triangle); all 2^(n-2) column masks x 2 entry classes; all 2^(n(n-1)/2) lower support masks for n<=4; scalings 2^+-27; exhaustive small-integer cells: all 2x2 over {0,1,-1,i,j,k}, 3x3 over {-1,0,1} (every 4th), 2x3/3x2 over {0,1,i,j} (every 4th); exhaustive Hermitian small-integer cells: diagonal over {-1,0,1}, off-diagonal over {0,1,-1,i,j,k}: all 2x2, every 3rd 3x3; tiny column segments 2^-560/2^-700/2^-1040 at column 0 and 2; xf tinysub",
     "thorough": "n<=7, 3 fill rows; exhaustive small-integer cells in full (2x2 over {0,1,-1,i,j,k}, 3x3 over {-1,0,1}, 2x3/3x2 over {0,1,i,j}) and 3x3 over {-1,0,1,2} (every 16th); exhaustive Hermitian small-integer cells in full (2x2, 3x3: diagonal {-1,0,1}, off-diagonal {0,1,-1,i,j,k})",
 }
 THOROUGH_STREAMS = 8
